@@ -1,0 +1,99 @@
+//go:build verif
+
+package visitor
+
+import (
+	"net"
+	"slices"
+
+	"github.com/fatedier/frp/pkg/util/util"
+	"github.com/fatedier/frp/verif"
+)
+
+//verif:guarded Manager mu listeners
+
+// Monitor invariant: the table exists; every entry has a listener.
+//
+//verif:invariant Manager mu
+func (vm *Manager) verifInvListeners(name string) bool {
+	b, ok := vm.listeners[name]
+	return vm.listeners != nil && (!ok || (b != nil && b.l != nil))
+}
+
+//verif:contract ~/server/visitor.NewManager
+//verif:props C08 C10
+func verif_NewManager(name string) {
+	vm := NewManager()
+	verif.Ensures(vm != nil && vm.verifInvListeners(name) && !verif.Has(vm.listeners, name), "establishes_invariant_empty")
+}
+
+const (
+	evPut  = "InternalListener).PutConn"
+	evEnc  = "golib/io.WithEncryption"
+	evComp = "golib/io.WithCompression"
+)
+
+// A visitor connection is handed to a secret proxy's listener only if it is
+// signed with that proxy's key and the visitor's user is allowed; everything
+// else gets an error. The admitted stream is wrapped with encryption (keyed by
+// the proxy's secret key) iff the visitor declared it, then compression iff
+// declared - the same stack the visitor side builds (C01).
+//
+//verif:contract (*~/server/visitor.Manager).NewConn
+//verif:props C08 C01
+func verif_NewConn(vm *Manager, name string, conn net.Conn, timestamp int64, signKey string,
+	useEncryption bool, useCompression bool, visitorUser string,
+) {
+	b0, ok0 := vm.listeners[name]
+	verif.ResetEvents()
+	err := vm.NewConn(name, conn, timestamp, signKey, useEncryption, useCompression, visitorUser)
+	if verif.Called(evPut) {
+		verif.Ensures(ok0, "bridged_only_to_existing_proxy")
+		verif.Ensures(util.GetAuthKey(b0.sk, timestamp) == signKey, "bridged_only_if_signed_with_proxy_key")
+		verif.Ensures(slices.Contains(b0.allowUsers, visitorUser) || slices.Contains(b0.allowUsers, "*"), "bridged_only_for_allowed_user")
+		verif.Ensures(verif.CalledWith(evPut, 0, b0.l), "bridged_to_that_proxys_listener")
+		verif.Ensures(verif.CallCount(evPut) == 1, "bridged_once")
+		verif.Ensures(verif.Called(evEnc) == useEncryption, "encryption_iff_declared")
+		verif.Ensures(verif.Called(evComp) == useCompression, "compression_iff_declared")
+		if useEncryption {
+			verif.Ensures(verif.CalledWith(evEnc, 1, []byte(b0.sk)), "encryption_keyed_by_proxy_secret")
+		}
+		if useEncryption && useCompression {
+			verif.Ensures(verif.CalledBefore(evEnc, evComp), "encryption_below_compression")
+		}
+	} else {
+		verif.Ensures(err != nil, "refused_with_error")
+	}
+}
+
+// Listen: a name is registered once; a duplicate is refused and the incumbent
+// entry is untouched. CloseListener removes exactly this name.
+//
+//verif:contract (*~/server/visitor.Manager).Listen
+//verif:props C08 C10
+func verif_Listen(vm *Manager, name string, sk string, allowUsers []string, q string) {
+	tab0 := verif.Snap(vm.listeners)
+	l, err := vm.Listen(name, sk, allowUsers)
+	if verif.Has(tab0, name) {
+		verif.Ensures(err != nil && l == nil, "duplicate_refused")
+		verif.Ensures(vm.listeners[name] == tab0[name], "incumbent_untouched")
+	} else {
+		verif.Ensures(err == nil && l != nil, "fresh_name_accepted")
+		verif.Ensures(verif.Has(vm.listeners, name) && vm.listeners[name].l == l && vm.listeners[name].sk == sk, "entry_records_key_and_listener")
+		verif.Ensures(slices.Equal(vm.listeners[name].allowUsers, allowUsers), "entry_records_allow_list")
+	}
+	if q != name {
+		verif.Ensures(verif.Has(vm.listeners, q) == verif.Has(tab0, q) && vm.listeners[q] == tab0[q], "other_names_untouched")
+	}
+}
+
+//verif:contract (*~/server/visitor.Manager).CloseListener
+//verif:props C10
+func verif_CloseListener(vm *Manager, name string, q string) {
+	tab0 := verif.Snap(vm.listeners)
+	vm.CloseListener(name)
+	verif.Ensures(!verif.Has(vm.listeners, name), "name_released")
+	if q != name {
+		verif.Ensures(verif.Has(vm.listeners, q) == verif.Has(tab0, q) && vm.listeners[q] == tab0[q], "other_names_untouched")
+	}
+}
